@@ -24,8 +24,9 @@
   Expressions also include the object-less `the` forms: `the <key name>` (43 0; 66 n), `the <movie property>` (5f n),
   `the <system property>` (k; 5c 07), `the floatPrecision … the timeoutScript` (k; 5c 00); `the <p> of sprite|cast|sound n`
   (n; k; 5c 06/09/04/0d; n a literal, plain string or variable — else F20); `the <p> of <obj>` (obj; 61 n; obj not a variable
-  called `me`; F142 repaired); chunk expressions `char|word|item|line a [to b] of d` (opcode 17, one filled slot per slice:
-  `d` not itself a coarser chunk); `the number of <chunk>s of e` (5c 01), `the last <chunk> of e` (5c 00, k = 11 + rank).  Assignment targets: the four variable kinds, `set the <p> of sprite|cast|sound n`
+  called `me`; F142 repaired); chunk expressions `char|word|item|line a [to b] of d` (opcode 17; chains of strictly coarser chunks
+  = one slice instruction with several slots, any other nesting = several instructions); `the number of <chunk>s of e` (5c 01), `the last <chunk> of e` (5c 00, k = 11 + rank),
+  `the <p> of field e` (5c 0b; reading only: the assignment 5d 0b is F38); property lists `[k: v, …]`, `[:]` (1f).  Assignment targets: the four variable kinds, `set the <p> of sprite|cast|sound n`
   (5d 06/09/04/0d), `set the <system property>` (5d 07), `set the floatPrecision …` (5d 00), `set the <p> of <obj>` (62 n).
 
   WHOLE SCRIPTS (`T_link_all`, `T_C02_all`): `FragScriptM` (DrxProofs/LinkMixed.lean) — every handler is either flat (`FragH`) or
@@ -33,9 +34,10 @@
 
   STRUCTURED bodies (`T_link_structured`, `T_C02_structured`): `if … then … [else …] end if`, `repeat while c`,
   `repeat with <local> = a [down] to b`, nested to any depth, over the same simple statements / expressions.  Fragment =
-  `FragScriptT s` (agent-link-flow's byte-level fragment, DrxProofs/LinkFlow2Link.lean) ∧ `FragScriptX s` (text level,
-  Drx/Link.lean; a `repeat while` condition must not be an infix operation: the decompiler strips its outer parentheses, which is
-  a different token list than the reference printer's).
+  `FragScriptT s` (agent-link-flow's byte-level fragment, DrxProofs/LinkFlow2Link.lean; every expression form of `FragE` anywhere
+  since `FragE0 := FragE`) ∧ `FragScriptX s` (text level, Drx/Link.lean).  The decompiler strips the outer parentheses of an infix
+  `repeat while` condition: `dToks` / `ReadOkB` are stated for those tokens (`prSW`), and the reader theorem for them is
+  `rp_scriptW` (DrxProofs/LinkWhile.lean).
 -/
 import Drx.Link
 import DrxProofs.LinkParse
@@ -121,7 +123,8 @@ theorem L6m_structured (ss : List Stmt) (hf : FragXs ss = true) (ns : List Lscr.
 /-- **T-link, structured**: bytes (agent-link-flow's `parse_structured`: container, opcode walker, stack machine, the three jump
     opcodes, `condition_detect`, `loop_detect`) → nested tree → text `mText s` → reference tokens.
     `FragScriptT` is the byte-level fragment (DrxProofs/LinkFlow2Link.lean), `FragScriptX` the text-level one (Drx/Link.lean):
-    the same statement forms; `FragScriptX` additionally asks that a `repeat while` condition is no infix operation. -/
+    the same statement forms (the decompiler's text of a `repeat while` condition without the outer parentheses of an infix
+    operation is part of `mText` / `dToks`). -/
 theorem T_link_structured (o : Options) (s : Script) (c : Compiled) (hf : FragScriptT s = true) (hx : FragScriptX s = true)
     (hc : compile o s = .ok c) (hn : NamesOk c) :
     modelDecompile c.lscr c.lnam = some (mText s) ∧ lex (mText s) = some (dToks s) := by
@@ -204,6 +207,9 @@ def exScript : Script :=
                       (.chunk .word (.bin .add (.var .loc "z".toList) (.int 1)) (.int 3) (.chunk .char (.int 2) (.int 9) (.field (.int 3))))),
                   .set (.var .loc "t".toList) (.chunk .line (.int 2) (.int 0) (.chunk .item (.int 1) (.int 2) (.var .loc "t".toList))),
                   .set (.var .loc "t".toList) (.bin .add (.the .numChunks 2 [.var .loc "t".toList]) (.the .special 12 [.chunk .line (.int 1) (.int 0) (.var .loc "t".toList)])),
+                  .set (.var .loc "t".toList) (.chunk .char (.int 1) (.int 0) (.chunk .word (.int 2) (.int 3) (.chunk .line (.var .loc "z".toList) (.int 0) (.var .loc "t".toList)))),
+                  .set (.var .loc "t".toList) (.bin .concat (.the .field 2 [.str "status".toList]) (.the .field 1 [.bin .add (.var .loc "z".toList) (.int 1)])),
+                  .set (.var .loc "pl".toList) (.plist [.sym "h".toList, .bin .add (.var .loc "z".toList) (.int 1), .str "w".toList, .plist [], .sym "n".toList, .plist [.int 1, .list [.int 2]]]),
                   .call "beep".toList [],
                   .exit ] } ] }
 
@@ -221,7 +227,7 @@ example : ∃ c, compile {} exScript = .ok c ∧ NamesOk c := by
 
 /-- the text the theorem predicts for the example (also the output of the real decompiler on the compiled chunks) -/
 example : String.ofList (mText exScript) =
-    "property score\nglobal gTotal\n\non startUp a, b\n    set x = ((a - (gTotal - 1)) * -(b + 70000))\n    set score = not (x <= 300)\n    set gTotal = sprite 1 within (x + 2)\nend\n\non finish\n    global counter\n    global zLast\n\n    set y = (score & (0 mod 129))\n    set z = max(field 3, [1, y, []])\n    startUp z, startUp(1, 2)\n    alert \"Hi there!\", #warn, (\"a\" && z)\n    set zLast = (counter + gTotal)\n    set w = (the mouseH + (the stageColor + (the floatPrecision + the frameLabel)))\n    set q = [the locH of sprite 3, the name of cast z, the volume of sound 2, the duration of cast \"clip\"]\n    set the locH of sprite z = (the locH of sprite z + 5)\n    set the text of cast \"title\" = \"Done\"\n    set the stageColor = 255\n    set the floatPrecision = 4\n    set the width of q = (the height of rect(z) * 2)\n    set t = (char 1 of y & word (z + 1) to 3 of char 2 to 9 of field 3)\n    set t = line 2 of item 1 to 2 of t\n    set t = (the number of words of t + the last char of line 1 of t)\n    beep\n    exit\nend\n" := by
+    "property score\nglobal gTotal\n\non startUp a, b\n    set x = ((a - (gTotal - 1)) * -(b + 70000))\n    set score = not (x <= 300)\n    set gTotal = sprite 1 within (x + 2)\nend\n\non finish\n    global counter\n    global zLast\n\n    set y = (score & (0 mod 129))\n    set z = max(field 3, [1, y, []])\n    startUp z, startUp(1, 2)\n    alert \"Hi there!\", #warn, (\"a\" && z)\n    set zLast = (counter + gTotal)\n    set w = (the mouseH + (the stageColor + (the floatPrecision + the frameLabel)))\n    set q = [the locH of sprite 3, the name of cast z, the volume of sound 2, the duration of cast \"clip\"]\n    set the locH of sprite z = (the locH of sprite z + 5)\n    set the text of cast \"title\" = \"Done\"\n    set the stageColor = 255\n    set the floatPrecision = 4\n    set the width of q = (the height of rect(z) * 2)\n    set t = (char 1 of y & word (z + 1) to 3 of char 2 to 9 of field 3)\n    set t = line 2 of item 1 to 2 of t\n    set t = (the number of words of t + the last char of line 1 of t)\n    set t = char 1 of word 2 to 3 of line z of t\n    set t = (the text of field \"status\" & the name of field (z + 1))\n    set pl = [#h: (z + 1), \"w\": [:], #n: [1: [2]]]\n    beep\n    exit\nend\n" := by
   decide +kernel
 
 /-! ### non-vacuity, structured -/
@@ -241,7 +247,12 @@ def exStructured : Script :=
               [ .set (.var .loc "x".toList) (.bin .add (.var .loc "x".toList) (.int 2)) ],
             .call "show".toList [.var .loc "x".toList] ],
           .repeatWith (.var .loc "j".toList) (.bin .mul (.var .param "n".toList) (.int 2)) (.int 1) true [
-            .ifThen (.key "mouseDown".toList) [ .exit ] [] ] ] } ] }
+            .ifThen (.key "mouseDown".toList) [ .exit ] [] ],
+          .repeatWhile (.key "stillDown".toList) [
+            .set (.the .sprite 13 [.int 3]) (.bin .sub (.key "mouseH".toList) (.the .numChunks 1 [.the .field 2 [.str "note".toList]])),
+            .set (.var .loc "x".toList) (.chunk .word (.int 1) (.int 0) (.oprop "title".toList (.var .loc "x".toList))) ],
+          .repeatWhile (.bin .and (.bin .lt (.var .loc "x".toList) (.bin .mul (.var .param "n".toList) (.int 2))) (.un .not (.key "mouseDown".toList))) [
+            .set (.var .loc "x".toList) (.bin .add (.var .loc "x".toList) (.int 1)) ] ] } ] }
 
 example : FragScriptT exStructured = true := by decide +kernel
 example : FragScriptX exStructured = true := by decide +kernel
@@ -256,7 +267,7 @@ example : ∃ c, compile {} exStructured = .ok c ∧ NamesOk c := by
   | ok c => rw [hc] at h; exact ⟨c, rfl, by simpa [NamesOk] using h⟩
 
 example : String.ofList (mText exStructured) =
-    "on go n\n    set x = 1\n    repeat while not (x >= n)\n        if (x = 3) then\n            repeat with i = 1 to 9\n                show i\n            end repeat\n        else\n            set x = (x + 2)\n        end if\n        show x\n    end repeat\n    repeat with j = (n * 2) down to 1\n        if the mouseDown then\n            exit\n        end if\n    end repeat\nend\n" := by
+    "on go n\n    set x = 1\n    repeat while not (x >= n)\n        if (x = 3) then\n            repeat with i = 1 to 9\n                show i\n            end repeat\n        else\n            set x = (x + 2)\n        end if\n        show x\n    end repeat\n    repeat with j = (n * 2) down to 1\n        if the mouseDown then\n            exit\n        end if\n    end repeat\n    repeat while the stillDown\n        set the locH of sprite 3 = (the mouseH - the number of chars of the text of field \"note\")\n        set x = word 1 of the title of x\n    end repeat\n    repeat while (x < (n * 2)) and not the mouseDown\n        set x = (x + 1)\n    end repeat\nend\n" := by
   decide +kernel
 
 /-- a flat handler with `the` forms in assignments next to a structured handler -/
